@@ -33,7 +33,8 @@ CLAIMED = {
               "with a scan or a parse error (exact conditions and error codes, trichotomy); 22 precedence / "
               "associativity laws for all identifier operands; the COMPLETE operator table (C01_pairs.v): every ordered "
               "pair of the thirteen binary operators, all identifier operands, any spacing, parsed to the tree a "
-              "parser-independent precedence table with left associativity prescribes." + COMMON),
+              "parser-independent precedence table with left associativity prescribes; to the right of the tilde the "
+              "pair is accepted iff neither operator binds looser than plus, refused with a parse error otherwise." + COMMON),
         design_ref="DESIGN.md section 5 C01, section 10",
         technique="Coq proof: scanner characterised by renderings, parser sound+complete w.r.t. precedence grammar; translator tie; differential correspondence"),
     "C02": dict(
